@@ -66,7 +66,7 @@ type ctxKey struct{}
 // forwardMessage arrives at the topic named at publish time with UUID, payload and metadata intact;
 // destination failure => error (Nack); non-envelopes are never forwarded and acked/nacked per AckWhenCannotUnwrap.
 func HarnessC17Forward() {
-	kind := vrt.Int("kind", 0, 2) // 0 valid envelope via Publisher, 1 not an envelope, 2 envelope with empty destination
+	kind := vrt.Int("kind", 0, 3) // 0 valid envelope via Publisher, 1 not an envelope, 2 envelope with empty destination, 3 a valid envelope followed by more data
 	ack := vrt.Bool("ackWhenCannotUnwrap")
 	dest := &fwdPublisher{fail: vrt.Bool("dest.fails")}
 	f := &Forwarder{publisher: dest, logger: watermill.NopLogger{}, config: Config{AckWhenCannotUnwrap: ack}}
@@ -89,6 +89,12 @@ func HarnessC17Forward() {
 	case 2:
 		b, _ := json.Marshal(&messageEnvelope{DestinationTopic: "", UUID: orig.UUID, Payload: orig.Payload, Metadata: orig.Metadata})
 		consumed = message.NewMessage("x", b)
+	case 3:
+		// malformed: a payload that merely starts with a well-formed envelope (two envelopes glued together, "{...}}garbage")
+		b, _ := json.Marshal(&messageEnvelope{DestinationTopic: "somewhere", UUID: orig.UUID, Payload: orig.Payload, Metadata: orig.Metadata})
+		tail := vrt.Bytes("trailing", 2)
+		vrt.Assume(len(tail) > 0 && tail[0] > ' ')
+		consumed = message.NewMessage("x", append(append([]byte{}, b...), tail...))
 	}
 	err := f.forwardMessage(consumed)
 	vrt.Observe("err", err != nil)
